@@ -484,3 +484,51 @@ Proof.
   - destruct (si_real i); vm_compute; reflexivity.
   - eapply layout_noise; eassumption.
 Qed.
+
+(* ---------------------------------------------------------------- the diagram *)
+
+Definition shape_ok (S : sdiagram) (se : string * selem) : bool :=
+  match snd se with
+  | EClass c => class_ok S c
+  | EPackage p => package_ok S p
+  | EInh i => inh_ok S i
+  | EOther id nm ty _ noise =>
+      ident id && match nm with Some n => txt n && no_char ":" n | None => true end && ident ty
+      && negb (existsb (String.eqb ty) ["Class"; "Package"; "Association"; "Realization"; "Generalization"])
+      && layout_ok (fun _ => None) noise
+  end.
+
+Lemma shape_good : forall D se, shape_ok D se = true ->
+  wf_node (we_node (welem_of (snd se))) = true /\ nb_node (we_node (welem_of (snd se))) = true.
+Proof.
+  intros D [sid e] H. unfold shape_ok in H. cbn [snd] in *.
+  destruct e as [c|p|i|id nm ty par noise]; cbn [welem_of we_node].
+  - exact (class_good D c H).
+  - exact (package_good D p H).
+  - exact (inh_good D i H).
+  - split_and. apply elem_good; try side.
+    + eapply layout_noise; eassumption.
+    + exact no_items_good.
+Qed.
+
+(* the referenced elements (not part of wf_drawn) are in the domain as well *)
+Lemma ref_good : forall r,
+  ident (sr_id r) && txt (sr_name r) && no_char ":" (sr_name r) && ident (sr_type r) && layout_ok (fun _ => None) (sr_noise r) = true ->
+  wf_node (we_node (welem_of_ref r)) = true /\ nb_node (we_node (welem_of_ref r)) = true.
+Proof.
+  intros r H. split_and. unfold welem_of_ref. cbn [we_node]. apply elem_good; try side.
+  - cbn [name_ok]. rewrite andb_true_iff. split; assumption.
+  - eapply layout_noise; eassumption.
+  - exact no_items_good.
+Qed.
+
+Lemma tree_of_wf_drawn : forall S : sdiagram, sdiagram_ok S = true -> wf_drawn (tree_of S) = true.
+Proof.
+  intros S H. unfold sdiagram_ok in H. split_and.
+  match goal with H : forallb _ (sd_shapes S) = true |- _ => rename H into Hs end.
+  change (forallb (shape_ok S) (sd_shapes S) = true) in Hs.
+  unfold wf_drawn, tree_of. cbn [wd_drawn]. revert Hs. apply forallb_map_imp. intros se Hse. cbn [snd].
+  destruct (shape_good S se Hse) as [G1 G2]. rewrite G1, G2, (wf_sq _ G1). reflexivity.
+Qed.
+
+Print Assumptions tree_of_wf_drawn.
